@@ -77,6 +77,70 @@ class Claim:
         self.stream, self.index, self.payload, self.seq, self.obs = (60928, src, 255, 0), 0, name.to_bytes(8, "little"), 0, None
 
 
+class Trunc:
+    """A first frame cut down to nothing but its control byte (a new sequence counter, frame 0, no length, no data), or a frame
+    without any data at all: the decoder rejects it (or ignores it) - and the stream it names is exactly where it was."""
+    __slots__ = ("stream", "data", "index", "payload", "seq", "obs", "nframes")
+
+    def __init__(self, stream, seq, empty=False):
+        self.stream, self.index, self.seq, self.obs, self.nframes = stream, -1, seq % 8, None, 1
+        self.data = b"" if empty else bytes([(seq % 8) << 5])
+        self.payload = self.data
+
+
+class BadMsg(Msg):
+    """A complete message that the codec refuses when the last frame arrives (a two-frame NMEA group function request the
+    generated decoder has no field type for; or a payload of a real definition with a field out of range): an error (or
+    nothing) at that moment, and nothing left behind in the stream."""
+    __slots__ = ()
+
+    def __init__(self, stream, index, seq, tail: bytes, payload: bytes | None = None):
+        self.stream, self.index, self.obs = stream, index, None
+        self.payload = payload if payload is not None else bytes([0x00, 0x01, 0xF8, 0x01]) + tail[:5].ljust(5, b"\x11")
+        self.seq = seq % 8
+        nbytes = len(self.payload)
+        self.nframes = 1 if nbytes <= 6 else 1 + (nbytes - 6 + 6) // 7
+
+
+_REFUSED_PAYLOADS: dict = {}
+
+
+def refused_payloads(pgn, rng):
+    """Payloads of real definitions of this PGN that the library refuses when they are complete (checked once against a decoder
+    of their own): a field holds a code outside its range."""
+    if pgn not in _REFUSED_PAYLOADS:
+        from ..lib import _RealDecoder
+        dbx = refdb.db()
+        out = []
+        probe = _RealDecoder()
+        for d in dbx.by_pgn.get(pgn, []):
+            if not (d.supported and d.fixed_layout and d.length and 8 < d.length <= 60) or d.fallback:
+                continue
+            for f in d.fields:
+                if f.match is not None or f.bits is None or f.off is None:
+                    continue
+                for name, u, inr in gen.field_classes(f, rng, 1, dbx):
+                    if inr:
+                        continue
+                    raws = gen.base_raws(d, rng, dbx)
+                    raws[f.order] = u
+                    p = dbx.pack(d, raws)
+                    if dbx.select(pgn, p) is not d:
+                        continue
+                    pb = p.to_bytes(d.length, "little")
+                    try:
+                        probe.decode_basic_string(wire.plain_line(3, pgn, 9, 255, pb), already_combined=True)
+                    except Exception:  # noqa: BLE001
+                        out.append(pb)
+                        break
+                if len(out) >= 12:
+                    break
+            if len(out) >= 12:
+                break
+        _REFUSED_PAYLOADS[pgn] = out
+    return _REFUSED_PAYLOADS[pgn]
+
+
 def frames_of(m: Msg, pad):
     return wire.fast_frames(m.payload, m.seq, pad)
 
@@ -88,6 +152,9 @@ def expected_returns(events):
     for m, i in events:
         if isinstance(m, Claim):
             out.append(m)                     # an address claim: returned as a message of its own, no part of any stream
+            continue
+        if isinstance(m, Trunc):
+            out.append(None)                  # rejected: no part of anything, changes nothing
             continue
         st = cur.get(m.stream)
         if i == 0:
@@ -170,6 +237,17 @@ def run_history(events, acc, label, faults: bool, formats=("ebyte",)):
                         pass
                     got.append("claim")
                     continue
+                if isinstance(m, Trunc):
+                    pgn, src, dst, _ = m.stream
+                    try:
+                        r = dec.decode_tcp(wire.ebyte_frame(wire.can_id(6, pgn, src, dst), m.data))
+                    except Exception:  # noqa: BLE001  (refusing it is fine)
+                        r = None
+                    if r is not None:
+                        acc.violation("payload-never-sent-returned", f"{label}: a frame cut down to {len(m.data)} byte(s) produced a message at position {pos}", witness(events, label, pad, pos))
+                    got.append(None)
+                    acc.count("truncated_first_frames_in_histories")
+                    continue
                 key = (id(m), pad)
                 if key not in cache:
                     cache[key] = frames_of(m, pad)
@@ -189,11 +267,21 @@ def run_history(events, acc, label, faults: bool, formats=("ebyte",)):
                     else:
                         r = dec.decode_yacht_devices_string(wire.yd_line(ident, data).strip())
                 except Exception as e:  # noqa: BLE001
+                    if isinstance(m, BadMsg):
+                        got.append(None)          # the refusal of an undecodable message (at whichever frame): expected
+                        acc.count("undecodable_messages_refused_in_histories")
+                        continue
                     acc.violation("decode-raised-on-history", f"{label}: {type(e).__name__}: {e} at position {pos}", witness(events, label, pad, pos))
                     got.append("exc")
                     continue
                 acc.count("decoder_returns_checked")
                 e = exp[pos]
+                if isinstance(m, BadMsg) or isinstance(e, BadMsg):
+                    got.append(None)
+                    if r is not None:
+                        acc.violation("payload-never-sent-returned", f"{label}: the undecodable message of stream {m.stream} produced a message at position {pos}",
+                                      witness(events, label, pad, pos))
+                    continue
                 if r is None:
                     got.append(None)
                     if e is not None:
@@ -418,6 +506,37 @@ def random_histories(spec, acc):
         merged = scripts[0]
         for s in scripts[1:]:
             merged = next(interleavings(merged, s, 1, rng)) if len(merged) + len(s) > 20 else rng.choice(list(interleavings(merged, s, 200, rng)))
+        if h % 3 != 1:
+            # rejected input in between: first frames cut down to their control byte (a new counter on a stream that may have a
+            # transfer in progress), empty frames; and complete but undecodable messages on streams of their own and on PGN
+            # 126208 from the sources of the other streams
+            for _ in range(rng.randint(1, 6)):
+                st_ = rng.choice(use)
+                merged.insert(rng.randrange(len(merged) + 1), (Trunc(st_, rng.randrange(8), empty=rng.random() < 0.25), 0))
+            for b_ in range(rng.randint(0, 2)):
+                src_ = rng.choice(use)[1]
+                bm = BadMsg((126208, src_, 255, 90 + b_), b_, rng.randrange(8), bytes(rng.randrange(1, 250) for _ in range(5)))
+                at = rng.randrange(len(merged) + 1)
+                merged.insert(at, (bm, 0))
+                merged.insert(rng.randrange(at + 1, len(merged) + 1), (bm, 1))
+            # ... and ON the streams of the history: a complete message of a real definition of that PGN with a field out of
+            # range, its frames in order and together, right before one of the stream's own messages
+            for st_ in use:
+                ref_ = refused_payloads(st_[0], rng)
+                firsts = [k_ for k_, (m_, i_) in enumerate(merged) if isinstance(m_, Msg) and not isinstance(m_, BadMsg) and m_.stream == st_ and i_ == 0]
+                if ref_ and firsts and rng.random() < 0.7:
+                    at = rng.choice(firsts)
+                    nxt = merged[at][0]
+                    # (its counter differs from the stream's previous and next message: consecutive messages of a stream never
+                    # carry the same counter)
+                    before_ = [m_.seq for m_, i_ in merged[:at] if isinstance(m_, Msg) and m_.stream == st_]
+                    avoid_ = set(before_[-12:]) | {nxt.seq}
+                    if len(avoid_) >= 8:
+                        continue
+                    seq_ = next(q_ for q_ in range(8) if q_ not in avoid_)
+                    bm = BadMsg(st_, 1000 + at, seq_, b"", payload=rng.choice(ref_))
+                    merged[at:at] = [(bm, k_) for k_ in range(bm.nframes)]
+                    acc.count("undecodable_messages_on_the_streams_of_the_history")
         if h % 2 == 0:
             # address claims in between - first claims and take-overs (another NAME on the same address) - from addresses
             # whose decimal digits are a prefix of the streams' sources and destinations (2, 21, 25, 4, 44 ...) and from others
